@@ -242,28 +242,48 @@ pub fn run_path(scn: &Value) -> Value {
 
 /// key tables with entries filed under their own, another key's, or a foreign id
 pub fn run_table(scn: &Value, family: &str) -> Value {
-    let km = keys::KeyMap::new(family, &["k1", "k2", "k3", "o1"]);
+    let mut km = keys::KeyMap::new(family, &["k1", "k2", "k3", "o1"]);
     let mut problems = vec![];
+    let no_halgs = scn["halgs"] == "absent" && family == "ed25519";
+    // the same material described without a hash-algorithm list is another key (another id); the private
+    // halves stay usable for signing because the signature is relabelled below
+    let pubkey = |km: &keys::KeyMap, k: &str| -> PublicKey {
+        if no_halgs {
+            PublicKey::from_ed25519(km.pk(k).as_bytes().to_vec()).unwrap()
+        } else {
+            km.pk(k).clone()
+        }
+    };
+    let idof = |km: &keys::KeyMap, k: &str| -> String { keys::kid_str(pubkey(km, k).key_id()) };
+    let _ = &mut km;
     // the keys object, as text, possibly with colliding member names
     let mut members: Vec<(String, Value)> = vec![];
     let filed_id = |k: &str, filing: &str| -> Option<String> {
         match filing {
             "absent" => None,
-            "own" => Some(km.idstr(k)),
+            "own" => Some(idof(&km, k)),
             "foreign" => Some(sha256_hex(format!("foreign-{k}").as_bytes())),
-            other => Some(km.idstr(other)),
+            other => Some(idof(&km, other)),
         }
     };
     for k in ["k1", "k2", "k3"] {
         if let Some(id) = filed_id(k, scn["table"][k].as_str().unwrap()) {
-            members.push((id, serde_json::to_value(km.pk(k)).unwrap()));
+            let mut kj = serde_json::to_value(pubkey(&km, k)).unwrap();
+            match scn["embed"].as_str().unwrap_or("own") {
+                "filed" => kj["keyid"] = json!(id),
+                "absent" => {
+                    kj.as_object_mut().unwrap().remove("keyid");
+                }
+                _ => {}
+            }
+            members.push((id, kj));
         }
     }
     let keys_text = format!("{{{}}}", members.iter().map(|(id, v)| format!("{}:{}", json!(id), v)).collect::<Vec<_>>().join(","));
     let layout_text = format!(
         r#"{{"_type":"layout","expires":"2099-01-01T00:00:00Z","readme":"","keys":{},"steps":[{{"_type":"step","name":"s1","threshold":1,"expected_materials":[],"expected_products":[],"pubkeys":[{}],"expected_command":[]}}],"inspect":[]}}"#,
         keys_text,
-        ["k1", "k2", "k3"].iter().map(|k| json!(km.idstr(k)).to_string()).collect::<Vec<_>>().join(",")
+        ["k1", "k2", "k3"].iter().map(|k| json!(idof(&km, k)).to_string()).collect::<Vec<_>>().join(",")
     );
     let parsed: Result<LayoutMetadata, _> = serde_json::from_str(&layout_text);
     let layout = match parsed {
@@ -271,6 +291,12 @@ pub fn run_table(scn: &Value, family: &str) -> Value {
         Err(e) => return json!({"out": "bad", "problems": [{"layout_does_not_parse": e.to_string()}]}),
     };
     for (id, key) in &layout.keys {
+        // the intrinsic id, recomputed independently from the material
+        let (kt, sch) = type_scheme(family);
+        let intrinsic = expected_id(kt, sch, !no_halgs, key.as_bytes());
+        if keys::kid_str(id) != intrinsic {
+            problems.push(json!({"table_maps_id_to_key_with_other_intrinsic_id": keys::kid_str(id), "intrinsic": intrinsic}));
+        }
         if key.key_id() != id {
             problems.push(json!({"table_maps_id_to_other_key": keys::kid_str(id), "key": keys::kid_str(key.key_id())}));
         }
@@ -279,7 +305,7 @@ pub fn run_table(scn: &Value, family: &str) -> Value {
     for k in ["k1", "k2", "k3"] {
         let own = scn["table"][k] == "own";
         let claimed_by_other = ["k1", "k2", "k3"].iter().any(|o| *o != k && scn["table"][*o] == k);
-        let present = layout.keys.contains_key(&km.id(k));
+        let present = layout.keys.contains_key(&KeyId::from_str(&idof(&km, k)).unwrap());
         if own && !claimed_by_other && !present {
             problems.push(json!({"own_entry_dropped": k}));
         }
@@ -300,10 +326,10 @@ pub fn run_table(scn: &Value, family: &str) -> Value {
         let link = simple_link("s1");
         let mb = Metablock::new(link, &[km.sk(k)]).unwrap();
         let relabelled = Metablock {
-            signatures: vec![keys::make_sig(&km.idstr(filing), mb.signatures[0].value().as_bytes())],
+            signatures: vec![keys::make_sig(&idof(&km, filing), mb.signatures[0].value().as_bytes())],
             metadata: mb.metadata.clone(),
         };
-        std::fs::write(dir.join(format!("s1.{}.link", &km.idstr(filing)[0..8])), serde_json::to_string(&relabelled).unwrap()).unwrap();
+        std::fs::write(dir.join(format!("s1.{}.link", &idof(&km, filing)[0..8])), serde_json::to_string(&relabelled).unwrap()).unwrap();
         let signed_layout = Metablock::new(MetadataWrapper::Layout(layout.clone()), &[km.sk("o1")]).unwrap();
         let mut val = serde_json::to_value(&signed_layout).unwrap();
         val["signed"] = serde_json::from_str(&layout_text).unwrap();
